@@ -205,6 +205,8 @@ loadTextVertexLabeledEdgeList(
         auto vertex2 = vertexFromString(edgeString[1]);
 
         auto largestVertex = std::max(vertex, vertex2);
+        if (largestVertex + 1 == 0)
+            throw std::out_of_range("Vertex index too large (negative?).");
         if (largestVertex >= returnedGraph.getSize()) {
             returnedGraph.resize(largestVertex + 1);
             vertexLabels.resize(largestVertex + 1);
